@@ -14,7 +14,8 @@ RULE = ('scenario = (1-3 files, scripted passes, test rules, N, schedule stream)
         'the accepted sequence with the Coq model evaluated on the same scenario and schedule; the C02 oracle compares the '
         'accepted sequence and final files of contract-respecting scenarios across N in {1,2,3,5} x schedules (exhaustive '
         'streams over {0,1,2} up to a length bound for small rounds, random beyond) with an independent sequential reference; '
-        'non-trivial = distinct scenario/schedule whose run accepts at least once and rejects at least once')
+        'non-trivial = distinct scenario/schedule whose run accepts at least once and rejects at least once'
+        " Also: directed scenarios (interesting / failing / interesting candidates) under ALL completion patterns up to a bound for N in {1,3,4}; a real-pool run where the earlier candidate's test is slow and a later one fast.")
 TRUSTED = ['hand-written model coq/Driver/{Round,Outcome,RunPass,Script}.v tied to cvise/utils/testing.py by this correspondence run',
            'scheduler shim tools/vlib/shim.py (fake pebble pool / wait / Manager; assumes futures behave as concurrent.futures documents)']
 ASSUMPTIONS = ['deterministic interestingness test (a function of the joint contents)',
